@@ -289,40 +289,44 @@ func ResolveStateConflictsV2New(
 	// auth difference (events that don't appear in all auth chains).
 	fullConflictedSet := append(conflicted, r.calculateAuthDifferenceNew(stateResAlgo, newPDUSet(conflicted), stateSets)...)
 
-	// The full power set function returns the event and all of its auth
-	// events that also happen to appear in the conflicted set. This will
-	// effectively allow us to pull in all related events for any control
-	// event, even if those related events are themselves not control events.
+	// Select the control (power) events of the full conflicted set and, for each of them,
+	// every event of its auth chain that is also in the full conflicted set - whether that
+	// event is itself conflicted or comes from the auth difference / conflicted subgraph,
+	// and whether or not the path to it runs through events outside the full conflicted set.
+	// Each event is selected once.
+	fullConflictedMap := eventMapFromEvents(fullConflictedSet)
+	conflictedPulledIn := make(map[string]struct{}, len(conflicted)+len(authEvents))
 	visited := make(map[string]struct{}, len(conflicted)+len(authEvents))
-	var fullControlSet func(event PDU) []PDU
-	fullControlSet = func(event PDU) []PDU {
-		events := []PDU{event}
+	var pullInAuthChain func(event PDU)
+	pullInAuthChain = func(event PDU) {
 		for _, authEventID := range event.AuthEventIDs() {
 			if _, ok := visited[authEventID]; ok {
 				continue
 			}
-			if event, ok := r.conflictedEventMap[authEventID]; ok {
-				events = append(events, fullControlSet(event)...)
-			}
 			visited[authEventID] = struct{}{}
+			authEvent, ok := r.authEventMap[authEventID]
+			if !ok {
+				continue
+			}
+			if related, ok := fullConflictedMap[authEventID]; ok && !unconflictedSet.Contains(related) {
+				if _, ok := conflictedPulledIn[authEventID]; !ok {
+					conflictedPulledIn[authEventID] = struct{}{}
+					conflictedControlEvents = append(conflictedControlEvents, related)
+				}
+			}
+			pullInAuthChain(authEvent)
 		}
-		return events
 	}
-
-	// First of all, work through the full conflicted set. Ignoring any
-	// events which are unconflicted (from the auth difference, for example),
-	// pull in the control events and any events directly related to them.
-	conflictedPulledIn := make(map[string]struct{}, len(conflicted)+len(authEvents))
 	for _, p := range fullConflictedSet {
 		if unconflictedSet.Contains(p) {
 			continue
 		}
 		if isControlEvent(p) {
-			relatedEvents := fullControlSet(p)
-			for _, event := range relatedEvents {
-				conflictedPulledIn[event.EventID()] = struct{}{}
+			if _, ok := conflictedPulledIn[p.EventID()]; !ok {
+				conflictedPulledIn[p.EventID()] = struct{}{}
+				conflictedControlEvents = append(conflictedControlEvents, p)
 			}
-			conflictedControlEvents = append(conflictedControlEvents, relatedEvents...)
+			pullInAuthChain(p)
 		}
 	}
 
